@@ -145,6 +145,10 @@ pub fn run_bfs<S: System + 'static>(sys: S, a: &Args) -> ! {
 }
 
 pub fn run_family<S: System + 'static>(sys: S, a: &Args, hists: Vec<Vec<String>>) -> ! {
+    if let Some(w) = a.get("inject-window") {
+        let (lo, hi) = w.split_once(':').unwrap_or_else(|| die("--inject-window lo:hi"));
+        let _ = engine::INJECT_WINDOW.set((lo.parse().unwrap_or(0), hi.parse().unwrap_or(usize::MAX)));
+    }
     let sys: &'static S = Box::leak(Box::new(sys));
     register(sys, a);
     let rep = engine::run_histories(sys, &hists, a.num("threads", 16) as usize, a.num("inject", 0) > 0, a.num("sparse", 0) > 0);
